@@ -445,6 +445,9 @@ type Contract struct {
 	PanicsUnless []Clause // run-time panic conditions of an extern: assumed (partial correctness) or, in the no-panic sweep, obligations
 	Applies  string   // extern that calls its function-valued parameter once: the closure's contract is applied at the call site
 	With     []Clause // facts about the arguments (arg0, arg1, ...) the extern passes to the applied closure
+	Parfor   string   // parallel-for: this parameter is a worker closure run once per extent (see applyParfor)
+	Worker   []string // worker closure: [index variable, offset parameter, entries parameter]
+	Each     []Clause // per-index postconditions of a worker closure (each also added to Ensures as a quantified clause)
 	SetEnsures []Clause // postcondition of running the call once for every key in the deferred set 'keys' (commutative-defer rule)
 	Loops    map[int]*LoopSpec
 	Reveal   map[string]bool // opaque spec functions whose definitions this proof may use
@@ -466,6 +469,7 @@ type SpecFunc struct {
 type GhostVar struct {
 	Name    string
 	Type    string // map[K]V | set[K] | sort
+	Monotone bool  // grow-only set: every contract application and every verified body may only add elements
 	Scratch bool   // bookkeeping local to one function (e.g. the pending write batch): exempt from callers' frame obligations
 }
 
@@ -622,6 +626,34 @@ func (db *SpecDB) ParseSpecTextIn(lines []string, srcs []string, pkg string) err
 				return err
 			}
 			cur.PanicsUnless = append(cur.PanicsUnless, c)
+		case "parfor":
+			if cur == nil {
+				return fmt.Errorf("%s: parfor outside a contract", l.src)
+			}
+			cur.Parfor = strings.TrimSpace(rest)
+		case "worker":
+			if cur == nil {
+				return fmt.Errorf("%s: worker outside a contract", l.src)
+			}
+			cur.Worker = strings.Fields(rest)
+			if len(cur.Worker) != 3 {
+				return fmt.Errorf("%s: worker <index var> <offset param> <entries param>", l.src)
+			}
+		case "ensures-each":
+			if cur == nil || len(cur.Worker) != 3 {
+				return fmt.Errorf("%s: ensures-each needs a preceding 'worker' line", l.src)
+			}
+			c, err := mk(rest, l.src, fmt.Sprintf("each%d", len(cur.Each)+1))
+			if err != nil {
+				return err
+			}
+			cur.Each = append(cur.Each, c)
+			iv, off, ent := cur.Worker[0], cur.Worker[1], cur.Worker[2]
+			rng := EBinary{"&&", EBinary{"<=", EIdent{off}, EIdent{iv}}, EBinary{"<", EIdent{iv}, EBinary{"+", EIdent{off}, EIdent{ent}}}}
+			q := c
+			q.E = EQuant{true, []QVar{{iv, "int"}}, EBinary{"==>", rng, c.E}}
+			q.Text = "forall " + iv + " in [" + off + ", " + off + "+" + ent + "): " + c.Text
+			cur.Ensures = append(cur.Ensures, q)
 		case "applies":
 			if cur == nil {
 				return fmt.Errorf("%s: applies outside a contract", l.src)
@@ -727,6 +759,13 @@ func (db *SpecDB) ParseSpecTextIn(lines []string, srcs []string, pkg string) err
 			if strings.HasPrefix(g.Name, "scratch ") {
 				g.Scratch = true
 				g.Name = strings.TrimSpace(g.Name[len("scratch "):])
+			}
+			if strings.HasPrefix(g.Name, "monotone ") {
+				g.Monotone = true
+				g.Name = strings.TrimSpace(g.Name[len("monotone "):])
+				if !strings.HasPrefix(g.Type, "set[") {
+					return fmt.Errorf("%s: only sets can be monotone", l.src)
+				}
 			}
 			db.Ghosts[g.Name] = g
 			db.GhostOrd = append(db.GhostOrd, g.Name)
